@@ -112,6 +112,10 @@ def run_mutant(k, m):
             for c in CHECKS[m["pkg"]]:
                 rc, out = sh("timeout 1500 bin/check %s --tier quick 2>&1 | tail -3" % c, cwd=os.path.join(wd, "verif"), extra={"VERIF_REPO": repo}, timeout=1600)
                 res["ran"].append(c)
+                if rc == 124 and "VIOLATION" not in out:
+                    res["status"] = "check-timed-out"
+                    res["by"] = c
+                    break
                 if "VIOLATION" in out:
                     res["status"] = "caught"
                     res["by"] = c
